@@ -2,9 +2,50 @@ SPEC = dict(
     props_file="C02",
     legs=[dict(family="hll", oracles=["prop_ok"], profiles=["debug", "release"], mask=[1, 2, 3, 4, 5, 6],
                n_quick=90, n_thorough=900)],
-    level_text="placeholder",
-    level_note="placeholder",
-    technique="Coq proof by invariants + differential correspondence model vs crate",
-    trusted=[],
-    assumptions=[],
+    level_text="Theorems (Props/C02.v, 19 statements + 3 non-vacuity examples) over an executable Gallina model of "
+               "hll/{sketch,list,hash_set,container,array4,aux_map,array6,array8,estimator}.rs written function by function "
+               "(list -> hash set -> growth -> array promotion, Array4 nibbles + cur_min + aux map + shift_to_bigger_cur_min, "
+               "Array6 16-bit windows, Array8, HIP state over binary64 primitive floats), generic in the estimator. "
+               "Proved for ALL lg_k in 4..21, all three target types and ALL streams of coupons with value 1..63 (hence "
+               "every prefix): c02_hll_refines -- update_with_coupon never reaches a panic site and the sketch shows "
+               "exactly the Spec: mode = function of (lg_k, #distinct coupons), Container::iter = the distinct coupons "
+               "(no duplicate, none lost) and len = their number in list/set mode, Array{4,6,8}::get j = max value over "
+               "the coupons mapped to slot j in array mode; c02_hll_set_determined -- order/multiplicity independence; "
+               "c02_hll_types_same_estimator(_estimates) -- Hll4/Hll6/Hll8 hand identical (old,new) transitions and the same "
+               "unhit count to any estimator, so HIP estimate and all bounds are bit-identical; c02_array4_inv_* -- the "
+               "nibble/aux/cur_min/num_at_cur_min invariant (DESIGN B.4) holds initially, is preserved by update (four "
+               "branches) and by shift_to_bigger_cur_min, and the shift loop terminates within 64 - cur_min rounds; "
+               "c02_array6_get_put / c02_array4_nibble_get_put -- bit-level packing; c02_openaddr_* -- odd stride => probe "
+               "sequence is a permutation, find returns the key's cell or the first empty cell on its path, insert keeps "
+               "the invariant, no key stored twice; instantiated for HashSet::update and AuxMap insert(+grow)/replace/get. "
+               "The crate is tied to the model by the correspondence run: after every op of crafted and hashed streams "
+               "(three types in lock step, two permuted groups) mode, lg sizes, sorted coupons, raw table order, register "
+               "values, cur_min, num_at_cur_min, aux pairs, hip/kxq0/kxq1 bits, estimate and six bounds must be equal, in "
+               "debug and release builds; the oracle re-evaluates the Spec (coupon set / per-slot max / mode / equality "
+               "across types) on the crate's own observations.",
+    level_note="No theorem is partial: the structural claim of C02 is proved in full for the model. What the proof does NOT "
+               "carry: (1) the model-to-code step is the translator (constants, tables, in-function literals) plus the "
+               "differential correspondence run, not a proof about the Rust source; (2) the item -> coupon map (MurmurHash3, "
+               "leading zeros, 26-bit slot) is C16's subject, here items are hashed by tools/pyref.py and the coupon is "
+               "checked through the observations; (3) u8/u32/usize width of the Rust variables is not modelled (unbounded "
+               "N); the invariant bounds every modelled quantity (values <= 63, counts <= 2^21) far below the widths, but "
+               "that argument is informal; (4) the HIP accumulator VALUE is order dependent by design and only its "
+               "equality across types is proved; the composite (ln-based) estimator of out-of-order sketches is outside "
+               "C02 (never reached by update histories).",
+    technique="Coq proof by invariants and lock-step simulation (generic open-addressing development, Array4 invariant over "
+              "an abstract register file, refinement to the per-slot-max Spec by induction over arbitrary coupon lists; two "
+              "finite kernel sweeps: 256x16 nibble cases, lg_aux_arr_ints for lg_k 4..21) + differential correspondence "
+              "model vs crate (extracted OCaml, primitive floats bit-for-bit) + Spec oracle on the crate's observations",
+    trusted=["Coq 8.16 kernel incl. primitive floats/Int63 and vm_compute; extraction to OCaml (ExtrOcamlBasic, "
+             "ExtrOCamlFloats, ExtrOCamlInt63) used only by the correspondence run",
+             "tools/translate.py (constants KEY_BITS_26, RESIZE_*, AUX_TOKEN, LG_INIT_*, lg_aux_arr_ints table, the literals "
+             "8 / 3 of update_with_coupon, 32 of update_kxq, X_ARR/Y_ARR/HIP_LB/HIP_UB) and the harness/driver",
+             "the hooks HllSketch::verif_update_with_coupon (calls update_with_coupon) and verif_state (reads fields)",
+             "item hashes come from tools/pyref.py (reference MurmurHash3, checked against the crate in C16 and here "
+             "indirectly: the crate's own coupons must equal the reference coupons)",
+             "Rust fixed-width arithmetic is outside the model (unbounded N); every modelled quantity is bounded by the "
+             "proved invariant far below u8/u32 limits"],
+    assumptions=["coupons have a value field in 1..63 (what coupon() produces: min(lz,62)+1); the all-zero coupon is the "
+                 "container's EMPTY marker and is never produced",
+                 "4 <= lg_k <= 21 (HllSketch::new panics otherwise; modelled as Stuck)"],
 )
